@@ -10,7 +10,6 @@ CLAIMS = {
  "C07": "CMsgPackStringReader on ALL byte strings up to 9 bytes (16 for the timestamp family) versus an independent reference decoder, for 13 scalar targets, 4 length-header readers and timestamps, both policies symbolic: value / policy outcome / parsing error / exact position.",
  "C11": "All 1,112,064^2 ordered pairs of Unicode scalar values (k<=2) through Transcode (9 width pairs), the LE/BE encoder and decoder wrappers and Convert::Detail::To(string_view,string&): exact standard encoding form, zero errors, iterator at end, prefix preserved, round trip, policy-independent.",
  "C12": "Arbitrary (ill-formed included) code-unit sequences up to 4 UTF-8 bytes / 3 UTF-16 units / 2 UTF-32 units (thorough: 5/4/3) through every different-width decoder/encoder incl. LE/BE wrappers: ThrowError fails iff ill-formed at the right position; Skip yields well-formed output, count == marks, prefix and (for structurally complete errors) suffix preserved.",
-}
  "C10": "Memory vs stream: (1) CBinaryStreamReader, the only path by which the MsgPack stream reader touches the stream, refines a cursor over the byte sequence: ONE operation with symbolic arguments from an ARBITRARY state satisfying the representation invariant (inductive step: every history, every alignment against the chunk boundary, compaction, refill, seek-back after EOF), chunk size 8 via the guarded hook, stream <= 20 bytes; (2) MsgPack memory writer bytes == stream writer bytes for every value / every string length 0..300. CSV/JSON/XML stream paths and the reader-pair differential are outside (DESIGN.md).",
  "C14": "Calendar correctness of printing (fields handed to snprintf == proleptic Gregorian date by an independent day-count reference) for |z| < 2^16 days (thorough 2^20), time-of-day split, parse of rendered text to the exact instant for year windows (thorough -9999..9999), PrintIsoUtc buffer safety for EVERY int64 year, binary timestamp round trip; text round trip and durations in the thorough tier.",
  "C15": "SafeDurationCast / SafeAddDuration exact-or-out_of_range over full 64-bit ranges (bounded where a division by constant is involved), ParseSecondFractions (<= 3 chars quick), date-time grammar on 20-character buffers with arbitrary non-separator characters (20xx quick), parse value vs independent calendar reference for year windows incl. negative years.",
